@@ -115,6 +115,11 @@ FW(c, k, v, p) ==
                THEN FR(TRUE, Put(c, k, App(f, v)))
           ELSE FR(FALSE, c)
 
+\* Avoid = TRUE also stays away from rejected writes to a field that holds a symbolic child (open finding C03-F3:
+\* the rejected write detaches that child), so that the second simulation pass keeps its behaviours long
+HoldsNode(c, k) == HasKey(c, k) /\ ValAt(c, k).t \in {"list", "dict", "obj"}
+AvoidOK(r, k) == ~Avoid \/ r.ok \/ r.dc \/ ~HoldsNode(root, k)
+
 ---------------------------------------------------------------------------
 (* List content: every operation returns [ok, l (the result as coded), alts (every admissible result)] *)
 R(okk, nl, al) == [ok |-> okk, l |-> nl, alts |-> al]
@@ -187,17 +192,19 @@ StepF(r, sc, a) == IF r.dc THEN /\ out' = "any" /\ alts' = {r.c} /\ root' = r.c 
 FSet(name) == \E k \in P(KeysOf), v \in P(FieldPool), sc \in P(Scopes) :
                  /\ (sc = "N" \/ HasMissing(v))                     \* the scope matters for MISSING / partial values only
                  /\ ~(name = "OSetAttr" /\ k = 9)                    \* o.k9 = v creates a plain Python attribute
+                 /\ AvoidOK(FW(root, k, v, Eff(sc)), k)
                  /\ StepF(FW(root, k, v, Eff(sc)), sc, <<name, sc, k, v>>)
 DSet == "dset" \in Acts /\ Kind = "dict" /\ FSet("DSet")             \* d[k] = v   (v = MISSING: the marker assignment)
 DSetAttr == "dset" \in Acts /\ Kind = "dict" /\ FSet("DSetAttr")     \* d.k = v
 OSetAttr == "oset" \in Acts /\ Kind \in {"obj", "nest"} /\ FSet("OSetAttr")      \* o.k = v    (k9: not generated, a plain attribute)
 Rebind1(name) == \E k \in P(KeysOf), v \in P(FieldPool), sc \in P(Scopes) :
                  /\ (sc = "N" \/ HasMissing(v))
+                 /\ AvoidOK(FW(root, k, v, Eff(sc)), k)
                  /\ StepF(FW(root, k, v, Eff(sc)), sc, <<name, sc, <<k>>, v>>)
 DRebind1 == "rebind" \in Acts /\ Kind = "dict" /\ Rebind1("Rebind1")
 ORebind1 == "rebind" \in Acts /\ Kind \in {"obj", "nest"} /\ Rebind1("Rebind1")
 DDelLike(name) == \E k \in P(KeysOf), sc \in P(Scopes) :
-                 StepF(IF HasKey(root, k) THEN FW(root, k, VMissing, Eff(sc)) ELSE FR(FALSE, root), sc, <<name, sc, k>>)
+                 AvoidOK(FW(root, k, VMissing, Eff(sc)), k) /\ StepF(IF HasKey(root, k) THEN FW(root, k, VMissing, Eff(sc)) ELSE FR(FALSE, root), sc, <<name, sc, k>>)
 DDel == "ddel" \in Acts /\ Kind = "dict" /\ DDelLike("DDel")         \* del d[k]
 DPop == "ddel" \in Acts /\ Kind = "dict" /\ DDelLike("DPop")         \* d.pop(k)
 RECURSIVE ClearAll(_,_,_)
@@ -206,15 +213,16 @@ ClearAll(c, ks, p) == IF ks = <<>> THEN FR(TRUE, c)
 DClear == /\ "ddel" \in Acts /\ Kind = "dict"
           /\ \E sc \in P(Scopes) :
                LET r == ClearAll(root, [i \in 1..Len(root.xs) |-> root.xs[i][1]], Eff(sc))
-               IN StepF(IF r.ok THEN r ELSE FR(FALSE, root), sc, <<"DClear", sc>>)
+               IN (~Avoid \/ r.ok) /\ StepF(IF r.ok THEN r ELSE FR(FALSE, root), sc, <<"DClear", sc>>)
 DSetDefault == /\ "dset" \in Acts /\ Kind = "dict"
                /\ \E k \in P(KeysOf), v \in P(FieldPool \ {VMissing}) :
-                    StepF(IF HasKey(root, k) /\ ValAt(root, k) # VMissing THEN FR(TRUE, root) ELSE FW(root, k, v, InitPartial),
+                    AvoidOK(FW(root, k, v, InitPartial), k) /\ StepF(IF HasKey(root, k) /\ ValAt(root, k) # VMissing THEN FR(TRUE, root) ELSE FW(root, k, v, InitPartial),
                           "N", <<"DSetDefault", "N", k, v>>)
 \* batches of two field writes on different keys: update / |= / rebind with two paths
 BatchPool == IF Small THEN {IntV(0), IntV(-1), StrV(1)} ELSE FieldPool \ {VMissing}
 Batch2(name) == \E k1 \in P(KeysOf), k2 \in P(KeysOf), v1 \in P(BatchPool), v2 \in P(BatchPool) :
   /\ k1 # k2
+  /\ AvoidOK(FW(root, k1, v1, InitPartial), k1) /\ AvoidOK(FW(root, k2, v2, InitPartial), k2)
   /\ LET r1 == FW(root, k1, v1, InitPartial)
          r2 == FW(root, k2, v2, InitPartial)
          both == FW(r1.c, k2, v2, InitPartial)
@@ -228,7 +236,7 @@ ORebind2 == "batch" \in Acts /\ Kind = "obj" /\ Batch2("Rebind2")
 
 \* ---- Kind = "nest": nested objects, partial values and non-partial holders
 \* the free-standing object `ext` (it has a parent of its own, so the holder stores a copy) is written into the holder
-NSetExt(name) == \E sc \in P(Scopes) : StepF(FW(root, 1, ext, Eff(sc)), sc, <<name, sc>>)
+NSetExt(name) == \E sc \in P(Scopes) : AvoidOK(FW(root, 1, ext, Eff(sc)), 1) /\ StepF(FW(root, 1, ext, Eff(sc)), sc, <<name, sc>>)
 NSetExtAttr == "nest" \in Acts /\ Kind = "nest" /\ NSetExt("NSetExtAttr")          \* holder.k1 = ext
 NSetExtRebind == "nest" \in Acts /\ Kind = "nest" /\ NSetExt("NSetExtRebind")      \* holder.rebind(k1=ext)
 \* a write to the leaf two levels below an A object: x.k1.k1 = v  (x = ext, or the A object the holder stores)
